@@ -6,14 +6,16 @@ target present or None) with symbolic argument shapes, return values (including 
 the pipe buffer capacity of the virtual OS) and exceptions."""
 from collections import OrderedDict
 
-from .. import wsim, targets as T, vos
+from .. import wsim, targets as T, vos, simos
 from ..vos import Hang, Killed
 from ..rt import Outcome, ev, notrace, conc
 from ..xh import Harness
 from ..main import PropSpec
 from pyworkers.worker import Worker, WorkerType
 
-ASHAPES = [((), {}), ((1,), {}), ((1, "two"), {}), ((), {"x": 1}), ((1,), {"x": [2], "y": None}), ((None, 0), {"y": ""})]
+ASHAPES = [((), {}), ((1,), {}), ((1, "two"), {}), ((), {"x": 1}), ((1,), {"x": [2], "y": None}), ((None, 0), {"y": ""}),
+           # arguments whose class is defined in the user's main script (vf/targets.py: MainBox)
+           ((T.MainBox(3),), {}), ((1,), {"box": [T.MainBox(4)]})]
 MODES = [(0, i) for i in range(len(T.C02_VALUES))] + [(1, i) for i in range(len(T.C02_EXCS))] + [(2, i) for i in range(len(T.BIG_SIZES))] + [(3, 0)]
 
 
@@ -56,6 +58,7 @@ def _run(W, kind, route, runflag, hastarget, m, idx, a, k):
     kw = {"args": args, "kwargs": kwargs, "run": run}
     if wsim.is_remote_kind(kind):
         kw["host"] = wsim.SERVER_ADDR
+        kw["main_path"] = simos.USER_MAIN
     try:
         if route:
             w = Worker.create([WorkerType.THREAD, WorkerType.PROCESS, WorkerType.REMOTE][kind], target, **kw)
@@ -112,7 +115,7 @@ _FUNCS = ["pyworkers.worker:Worker.__init__", "pyworkers.worker:Worker.create", 
 H_DIFF = Harness(
     "diff", "vf.props.c02:h_diff", _params,
     tiers={
-        "quick": {"ranges": {"ashape": (0, 3)}, "partition": ["kind", "route", "runflag"], "timeout": 300, "twin_fixed": {"kind": 1, "route": 0, "runflag": 0}},
+        "quick": {"extra_pre": ["ashape <= 3 or ashape >= 6"], "partition": ["kind", "route", "runflag"], "timeout": 300, "twin_fixed": {"kind": 1, "route": 0, "runflag": 0}},
         "thorough": {"partition": ["kind", "route", "runflag", "hastarget", "ashape"], "timeout": 900,
                      "twin_fixed": {"kind": 1, "route": 0, "runflag": 0, "hastarget": 1, "ashape": 1}},
     },
@@ -126,8 +129,10 @@ SPEC = PropSpec(
         "pipe capacity of the virtual OS: 200 KiB per direction (AF_UNIX socketpair default); a frame larger than the free capacity blocks the writer until a "
         "reader is draining the pipe; result sizes 0 B, 100 B, 70 KiB, 300 KiB, 2 MiB",
         "values cross the process boundary through the real pickle module",
+        "classes defined in the main script: vf/targets.py MainBox can only be unpickled in a process that has the user's main script as its main module - "
+        "the parent, processes spawned by multiprocessing (spawn re-imports it), and a remote backend only after _run_backend ran runpy.run_path(main_path)",
     ],
-    outside=["real serialisation cost / time", "classes defined in the main script (a non-loadable value is covered in C01)", "result sizes not on the menu"],
+    outside=["real serialisation cost / time", "result sizes not on the menu"],
     stubs=["vf/simos.py"],
     technique="CrossHair/z3 bounded symbolic execution over a deterministic simulation, differential against a direct call",
 )
